@@ -51,6 +51,12 @@ CHECKS = {
  "C08": ("runtime invariant monitor on every error-free graph returned by the PyPI resolver over generated universes: one version per package, every true-by-construction requirement represented by an edge to a version satisfying its specifier (packaging SpecifierSet) under pip's prerelease rule, false markers contribute nothing, reachability, root not replaced",
          "Exploration: every version of every generated universe (all operators, prereleases, markers with truth known by construction and verified by probing the library, extras, cycles through the root, conflicts forcing backtracking) is resolved through a step-budgeted client; P1-P5 are evaluated on the returned graph; violating universes are shrunk.",
          "packaging 21.3 answers specifier questions (batched); three recorded divergences (interval matching of '<V' / '!=V.*' against V's own prereleases, stale extras of abandoned candidates) are identified by class predicates with witnesses.", "§6 C08"),
+ "C05": ("runtime metamorphic monitor + race detector: repeated / history / insertion-order / defensive-copy-client resolutions compared with a fresh-client baseline, client state dumped before and after every resolution, and a -race-built child running 2/4/16 concurrent resolutions on shared resolver and client with seeded yields at the client boundary",
+         "Exploration over the npm, Maven and PyPI universe generators of C06-C08: every compared resolution must encode identically to the baseline, the client must report identically before and after, and no race report may carry a deps.dev frame; distinct completion orders of the concurrent runs are counted.",
+         "Graphs are compared through an order-independent encoding, not Graph.Canon; the race detector only sees executed interleavings (counts of resolutions and distinct completion orders are in evidence).", "§6 C05"),
+ "C15": ("runtime differential monitor: generated POM lineages written to disk, effective dependencies computed by the library's documented pipeline (the example's own mergeParents, copied verbatim from the tree under test at build time, + ProcessDependencies) and by Maven 3.8.7's ModelBuilder in a side JVM; interpolation termination monitor over generated property tables",
+         "Exploration: ordered dependency and managed-dependency lists (group, artifact, version, type, classifier, scope, optional, exclusions) must be equal for every lineage Maven accepts; differences are attributed to the one open finding only by a remove-the-shape-and-re-run-both-sides reduction; property tables (cycles, self-references) must terminate and leave unknown placeholders in place.",
+         "Maven 3.8.7 is the only reference available; generator exclusions are listed in evidence.", "§6 C15"),
 }
 NOT_YET = {}
 
